@@ -21,6 +21,7 @@ type cropCycle struct {
 	stageDay  map[int]int // stage index -> absolute day it was first seen
 	lastStage int
 	harvest   int
+	judge     bool // annual main crop (permanent crops are grown but not judged)
 }
 
 type monC09 struct {
@@ -51,7 +52,12 @@ func (m *monC09) Event(ev *hermes.VerifEvent, rc *RunCtx) {
 	}
 	if m.cur == nil || m.cur.akf != a {
 		m.cur = &cropCycle{akf: a, crop: g.CropTypeToString(g.FRUCHT[a], false), sow: g.SAAT[a], stageDay: map[int]int{}, lastStage: -1}
+		m.cur.judge = a < len(rc.Sc.Rotation) && cropInfo(rc.Sc.Rotation[a].Crop) != nil
 		m.cycles = append(m.cycles, m.cur)
+	}
+	if !m.cur.judge {
+		rc.Cov("cropdays_permanent_crop_not_judged", 1)
+		return
 	}
 	const eps = 1e-9
 	chk := func(name string, v float64) {
@@ -96,7 +102,8 @@ func (m *monC09) Event(ev *hermes.VerifEvent, rc *RunCtx) {
 		rc.Violate("C09", "rooting_depth_negative", fmt.Sprintf("rooting depth %d", g.WURZ), ev.Zeit, 0, nil)
 	}
 	st := g.INTWICK.Index
-	if st < m.cur.lastStage && !g.DAUERKULT {
+	// annual or permanent is taken from the generator's own crop table (judge), not from the model's flag
+	if st < m.cur.lastStage {
 		rc.Violate("C09", "development_stage_decreased", fmt.Sprintf("development stage of %s went from %d back to %d", m.cur.crop, m.cur.lastStage, st), ev.Zeit, 0, nil)
 	}
 	if st != m.cur.lastStage {
@@ -123,6 +130,11 @@ func (m *monC09) Event(ev *hermes.VerifEvent, rc *RunCtx) {
 
 func (m *monC09) closeCycle(rc *RunCtx, zeit int) {
 	c := m.cur
+	if !c.judge {
+		rc.Cov("permanent_crop_cycles_not_judged", 1)
+		m.cur = nil
+		return
+	}
 	// stage days must be ordered: sowing <= emergence(1) <= ... <= harvest
 	prev := c.sow
 	for s := 0; s < 10; s++ {
@@ -162,7 +174,7 @@ func (m *monC09) Finish(rc *RunCtx) {
 			if len(f) < 8 {
 				continue
 			}
-			if recs < len(done) {
+			if recs < len(done) && done[recs].judge {
 				c := done[recs]
 				// columns: Crop,SowDate,SowDOY,EmergDOY,AnthDOY,MatDOY,HarvestDOY,HarvestYear
 				sowDOY, _ := strconv.Atoi(strings.TrimSpace(f[2]))
